@@ -283,6 +283,18 @@ theorem grow_linearizable_gen (cfg : Cfg) (m0 : Mem) (hs : cfg.imm.shared = true
 
 theorem gen_reads_under_lock : ReadsUnderLock Gen.growSteps = true := by decide
 
+/-- **`data` of a shared memory is never written after allocation** (so the unlocked reads of `data` in every load,
+    store and atomic access of other threads need no lock): no path of the regenerated wasmMemoryGrow for a shared
+    memory reaches `memory->data = …` or `realloc`.  (Semantic counterpart: third clause of `grow_race_free`,
+    `grow_bounds`: `data` is constant in every reachable state.) -/
+theorem grow_shared_never_writes_data : SharedNeverWritesData Gen.growSteps = true := by decide
+
+/-- **Zero-filling never happens outside the critical section**: no path of the regenerated wasmMemoryGrow for a
+    shared memory reaches a `memset` while the mutex is not held — in particular not after the unlock that makes the
+    new size visible.  (On this tree the shared path contains no memset at all: the block is calloc'ed at the maximum
+    size, `grow_shared_keeps_contents` in Props/C05Grow.lean.) -/
+theorem grow_zero_fill_inside_critical_section : ZeroFillInsideCS Gen.growSteps = true := by decide
+
 theorem gen_seq_correct : ∀ (imm : Imm), imm.shared = true → imm.maxPages ≤ 65536 → ∀ delta, delta < 4294967296 →
     SeqCorrect imm Gen.growSteps delta := by
   rcases gen_grow_discipline with ⟨_, h⟩ | h
